@@ -703,7 +703,7 @@ def gen_c17(rng):
                 "seg": rng.choice(["whole", "random", "small"]), "http10": rng.random() < 0.5,
                 "style": rng.choice(["call", "call", "notify", "batch"]), "indent": rng.choice([None, None, None, 1200]),
                 # an earlier exchange on the same proxy is cut in the middle of a large body (or reset): the judged one must not see its remains
-                "pre_fault": rng.choice([None, None, None, "truncated", "reset-mid-body"])}
+                "pre_fault": rng.choice([None, None, None, "truncated", "reset-mid-body", "bad-header"])}
     if k < 0.9:
         chunk = rng.choice([None, 1, 2, 3, 5, 7, 16, 64, 1000])
         return {"mode": "server", "kind": rng.choice(["plain", "pooled"]), "family": rng.choice(["tcp", "unix"]),
@@ -711,7 +711,8 @@ def gen_c17(rng):
                 "content_type": rng.choice(["application/json-rpc", "application/json"]),
                 "seg": rng.choice(["whole", "random", "small"]), "unbuffered": rng.random() < 0.3, "empty_body": rng.random() < 0.08}
     if k < 0.95:
-        return {"mode": "cgi", "backend": backend, "param": gen_text(rng), "content_type": rng.choice(["application/json-rpc", "application/json"])}
+        return {"mode": "cgi", "backend": backend, "param": gen_text(rng), "content_type": rng.choice(["application/json-rpc", "application/json"]),
+                "via": rng.choice(["stdin", "stdin", "text"])}
     return {"mode": "scheme", "scheme": rng.choice(["ftp", "ws", "file", "", "unix+ftp", "unix+https", "gopher", "httpx", "unix+", "mailto", "svn+http", "git+https", "tcp+http",
                                                       "unix+unix+http", "x-unix+http", "http+unix", "+http", "unix+http+x"])}
 
@@ -771,7 +772,7 @@ class C17Run(object):
             return json.dumps({"jsonrpc": "2.0", "id": obj["id"], "result": p["result"]}, ensure_ascii=False, indent=p.get("indent")).encode("utf-8")
 
         script = []
-        if p.get("pre_fault"):
+        if p.get("pre_fault") in ("truncated", "reset-mid-body"):
             script = ["big-" + p["pre_fault"]]
         pr = peermod.Peer(s, p["family"], script, reply_fn=reply, encoding=p.get("encoding", "identity"), http10=p.get("http10", False))
         pr.start()
@@ -786,7 +787,18 @@ class C17Run(object):
             url += "?" + p["query"]
         s.emit("url", url)
         proxy = self.jc.ServerProxy(url, config=cfg)
-        if p.get("pre_fault"):
+        if p.get("pre_fault") == "bad-header":
+            # a call that fails on the client side after the request line was prepared: http.client refuses the value
+            # of an additional header (a line break in it); nothing reaches the peer
+            try:
+                with proxy._additional_headers({"X-Trace": "first line\nsecond line"}):
+                    proxy.echo("first exchange, refused before it is sent")
+                s.emit("pre_fault.outcome", "value", False)
+            except core.SimAbort:
+                raise
+            except BaseException as ex:
+                s.emit("pre_fault.outcome", type(ex).__name__, False)
+        elif p.get("pre_fault"):
             try:
                 val = proxy.echo("first exchange, hit by the fault")
                 s.emit("pre_fault.outcome", "value", val == p["result"])
@@ -911,11 +923,51 @@ class C17Run(object):
             def flush(self):
                 pass
 
+        text = json.dumps({"jsonrpc": "2.0", "method": "echo", "params": [p["param"]], "id": 1}, ensure_ascii=False)
         old = sys.stdout
         o = Out()
         sys.stdout = o
         try:
-            h.handle_jsonrpc(json.dumps({"jsonrpc": "2.0", "method": "echo", "params": [p["param"]], "id": 1}, ensure_ascii=False))
+            if p.get("via") == "stdin":
+                # the documented entry point: handle_request() reads CONTENT_LENGTH bytes from standard input, which is a
+                # pipe from the web server - the body arrives in pieces of any size
+                import os
+
+                data = text.encode("utf-8")
+                sched = s
+
+                class Pieces(io.RawIOBase):
+                    def __init__(self):
+                        self.pos = 0
+
+                    def readable(self):
+                        return True
+
+                    def readinto(self, b):
+                        if self.pos >= len(data):
+                            return 0
+                        c = sched.choose(24, "stdin-piece")  # 0: as much as is asked for
+                        n = min(len(b), len(data) - self.pos, c or len(b))
+                        b[:n] = data[self.pos:self.pos + n]
+                        self.pos += n
+                        sched.fault("stdin_short_read")
+                        return n
+
+                old_in, old_env = sys.stdin, dict((k, os.environ.get(k)) for k in ("REQUEST_METHOD", "CONTENT_LENGTH"))
+                sys.stdin = io.TextIOWrapper(io.BufferedReader(Pieces(), 64), encoding="utf-8")
+                os.environ["REQUEST_METHOD"] = "POST"
+                os.environ["CONTENT_LENGTH"] = str(len(data))
+                try:
+                    h.handle_request()
+                finally:
+                    sys.stdin = old_in
+                    for k, val in old_env.items():
+                        if val is None:
+                            os.environ.pop(k, None)
+                        else:
+                            os.environ[k] = val
+            else:
+                h.handle_jsonrpc(text)
         finally:
             sys.stdout = old
         s.emit("cgi.raw", o.buffer.getvalue().decode("latin-1"))
@@ -1074,11 +1126,15 @@ class C17Scenario(object):
                 p["whitespace_only_read_block"] = 1
             if pg["query"]:
                 p["query_string"] = 1
-            if pg.get("pre_fault"):
+            if pg.get("pre_fault") in ("truncated", "reset-mid-body"):
                 p["earlier_exchange_cut_mid_body"] = 1
+            if pg.get("pre_fault") == "bad-header":
+                p["earlier_call_refused_while_building_headers"] = 1
             if "%" in pg["path"]:
                 p["percent_escape_in_path"] = 1
             p["family_" + pg["family"]] = 1
+        if pg["mode"] == "cgi" and pg.get("via") == "stdin" and s.faults.get("stdin_short_read", 0) > 1:
+            p["cgi_body_read_in_pieces"] = 1
         if pg["mode"] == "server":
             if pg.get("chunk") and any(ord(c) > 127 for c in pg["param"]):
                 p["multibyte_request_with_small_read_chunk"] = 1
